@@ -64,7 +64,7 @@ def initial_values(trace, entry):
         if started or fn not in (None, '', '__CPROVER_initialize', '__CPROVER__start'):
             continue
         root = re.match(r'[A-Za-z_]\w*', lhs)
-        if not root or not (root.group(0).startswith('in_') or root.group(0).startswith('g_')):
+        if not root or not (root.group(0).startswith('in_') or root.group(0).startswith('g_') or root.group(0) == 'GH_'):
             continue
         if '$pad' in lhs or v.get('name') in ('struct', 'array', 'union', None):
             continue
